@@ -310,7 +310,12 @@ pub fn roundtrip_out(d: &DecodedMap) -> Value {
         let d3 = match sourcemap::decode_slice(&b2) { Ok(x) => x, Err(e) => return json!({"k": "err", "stage": "read2", "e": format!("{:?}", e)}) };
         let b3 = match to_bytes(&d3) { Ok(b) => b, Err(e) => return json!({"k": "err", "stage": "write3", "e": e}) };
         // the reader entry point must read the serialised form as the slice entry point does
-        let via_reader = match sourcemap::decode(&b1[..]) { Ok(x) => proj_map(&x) == proj_map(&d2), Err(_) => false };
+        // (the stream arrives in uneven pieces, then byte by byte: reads end inside multi-byte characters)
+        let sizes: Vec<usize> = (0..64).map(|k| 1 + (b1.len() * (k + 3) / 7) % 37).collect();
+        let p2 = proj_map(&d2);
+        let via_reader = [sourcemap::decode(&b1[..]), sourcemap::decode(crate::c12::ChunkedReader::new(b1.clone(), sizes, 1)),
+                          sourcemap::decode(crate::c12::ChunkedReader::new(b1.clone(), vec![], 8191))]
+            .into_iter().all(|r| match r { Ok(x) => proj_map(&x) == p2, Err(_) => false });
         json!({"k": "ok", "p2": proj_map(&d2), "same": b2 == b3, "reader_same": via_reader, "detect": sourcemap::is_sourcemap_slice(&b1)})
     })
 }
